@@ -45,6 +45,18 @@ CHECKS = {
  "C29": dict(tech=TECH+"lockset analysis of every field access of IDSequence and TransactionStore (write vs read lock mode), escape rule for fields and maps, atomic-only rule for ClientState, constant-propagation evaluation of the loop-free Next at its boundary valuations",
    text="Linearizability of each individual call follows from 'whole body is one critical section on private state' which is decided for all interleavings; Next's arithmetic is additionally evaluated at the boundary valuations (including max = 0xFFFF wrap-around) - not for every value.",
    note="Trusted: go/ssa, sync and sync/atomic. R4 interprets the SSA of Next abstractly in the checker (uint16 wrap modelled); it does not run the program.", ref="4/C29"),
+ "C02": dict(tech=TECH+"per-field origin tracing through the positional constructor, path exploration of the broker-PUBLISH case with symbolic topic IDs ((ID, type) pairing, register-before-publish), exploration of the REGACK continuation per (QoS class, return code, transaction state), who-may-write rule for the registered-topics map",
+   text="Translation faithfulness and the ordering REGISTER -> accepted REGACK -> map update -> PUBLISH are decided on every path. That the client really accepted the REGISTER, and delivery under loss, are history properties left to C16/C26.",
+   note="Trusted: go/ssa. Lookup consistency (GetTopicID vs GetTopicName) is C05's rule.", ref="4/C02"),
+ "C03": dict(tech=TECH+"session automaton extraction for the one-to-one table, per-field origin tracing for message IDs / filters / QoS, guard analysis of the SUBACK mapping, exploration of the wildcard test over its two predicates, key-agreement rule for completion callbacks",
+   text="Per-case packet type, message ID, filter resolution, requested/granted QoS, acceptance edge (return code <= 2) and topic ID are decided for all inputs; timing between exchanges is not.",
+   note="Trusted: go/ssa; the reserved topic-ID type is excluded for SUBSCRIBE/UNSUBSCRIBE only because the decoder's own exploration shows it is rejected (checked on every run).", ref="4/C03"),
+ "C04": dict(tech=TECH+"constant evaluation of the allocator range, provenance (origin) rule for every handed-out topic ID, exhaustive exploration of the allocator wrapper over (sticky flag, overflow, predefined collision) valuations with symbolic IDs, who-may-write rule for the registered-topics map",
+   text="Range, provenance, collision check on the very ID returned, refusal on overflow and stickiness of exhaustion are decided structurally; the arithmetic of IDSequence.Next is C29's.",
+   note="Trusted: go/ssa. The allocator loop is explored for up to two probes (a third iteration repeats the same blocks).", ref="4/C04"),
+ "C05": dict(tech=TECH+"exhaustive exploration of GetTopicName over the 16 presence combinations of its four map lookups; derivation rule for every 'found' return of GetTopicID (range key + value equality + shadowing lookup in the client's own map)",
+   text="Both clauses are decided for all maps, client IDs and names because the argument is value independent (presence = comma-ok results; entry values unconstrained).",
+   note="Trusted: go/ssa; YAML parsing is out of scope.", ref="4/C05"),
 }
 
 NA = {
